@@ -361,6 +361,86 @@ pub fn tlong(g: &mut Gen, shard: usize) {
 }
 
 // ------------------------------------------------------------------------------------------------
+// T-hash: tens of thousands of hash requests on one small tree (each after a small change, some
+// after none): anything that depends on HOW OFTEN hashes were requested
+// ------------------------------------------------------------------------------------------------
+
+pub fn thash(g: &mut Gen, r: &mut Rng, shard: usize, requests: usize) {
+    if shard > 1 {
+        return;
+    }
+    let n = 2usize;
+    let base = 16u8;
+    set_val_pos(0);
+    let nk = 5usize;
+    let keys: Vec<Vec<u8>> = (0..nk as u8).map(|i| vec![0x60 + i]).collect();
+    let kds: Vec<Vec<u8>> = (0..nk).map(|i| digest_for_level([0, 1, 0, 2, 0][i], base, n, i as u8 * 2)).collect();
+    g.op(format!("new 0 {base} n={n}"));
+    g.cases += 1;
+    for i in 0..nk {
+        g.op(format!("ups 0 {} {} {}", xtok(&keys[i]), xtok(&kds[i]), xtok(&val_digest(1, n))));
+    }
+    for step in 0..requests {
+        // shard 0: a change before every request; shard 1: mostly repeated requests without a change
+        if shard == 0 || r.chance(1, 50) {
+            let i = r.below(nk as u64) as usize;
+            let v = 1 + r.below(3) as u8;
+            g.op(format!("ups 0 {} {} {}", xtok(&keys[i]), xtok(&kds[i]), xtok(&val_digest(v, n))));
+        }
+        g.op("hash 0".into());
+        let c = step + 1;
+        if c.is_power_of_two() || (c + 1).is_power_of_two() || (c - 1).is_power_of_two() && c > 2 {
+            g.op("cach 0".into());
+            g.op("ser 0".into());
+            g.op("trav 0 -".into());
+            g.shapes.insert(c as u64);
+        }
+    }
+    g.op("trav 0 -".into());
+    g.sample(format!("thash shard {shard}: {requests} hash requests on a {nk}-key tree"));
+}
+
+// ------------------------------------------------------------------------------------------------
+// T-big: ONE tree with thousands of keys (realistic level distribution), a diverged clone, diffs
+// ------------------------------------------------------------------------------------------------
+
+pub fn tbig(g: &mut Gen, r: &mut Rng, shard: usize, nkeys: usize) {
+    let n = [16usize, 16, 20, 8][(shard / 4) % 4];
+    let base = [16u8, 16, 4, 32][shard % 4];
+    set_val_pos(shard as u8);
+    let mut r = r.fork(shard as u64);
+    let nk = nkeys + r.below(nkeys as u64 / 4) as usize;
+    g.op(format!("new 0 {base} n={n}"));
+    g.cases += 1;
+    let keys: Vec<Vec<u8>> = (0..nk).map(|i| (i as u32).to_be_bytes().to_vec()).collect();
+    // "real" digests: uniformly random bytes, so levels follow the geometric law of the base
+    let kds: Vec<Vec<u8>> = (0..nk).map(|_| (0..n).map(|_| r.below(256) as u8).collect()).collect();
+    let mut order: Vec<usize> = (0..nk).collect();
+    if shard % 2 == 1 {
+        r.shuffle(&mut order);
+    }
+    for (step, &i) in order.iter().enumerate() {
+        g.op(format!("ups 0 {} {} {}", xtok(&keys[i]), xtok(&kds[i]), xtok(&val_digest(1, n))));
+        if (step + 1).is_power_of_two() || step + 1 == nk {
+            g.op("hash 0".into());
+            g.op("ser 0".into());
+            g.op("iter 0".into());
+            let tr = g.op("trav 0 -".into());
+            g.shape(&tr);
+        }
+    }
+    g.op("clone 1 0".into());
+    for _ in 0..5 {
+        let i = r.below(nk as u64) as usize;
+        g.op(format!("ups 1 {} {} {}", xtok(&keys[i]), xtok(&kds[i]), xtok(&val_digest(2, n))));
+    }
+    g.op("hash 1".into());
+    g.op("diff2 0 1".into());
+    g.cases += 1;
+    g.sample(format!("tbig shard {shard}: {nk} keys, base {base}"));
+}
+
+// ------------------------------------------------------------------------------------------------
 // T-wide: pages with hundreds of nodes (skewed level distribution), re-upserts and overwrites
 // ------------------------------------------------------------------------------------------------
 
@@ -974,6 +1054,55 @@ pub fn lsmall(g: &mut Gen, nkeys: usize, maxlen: usize, shard: usize, nshards: u
 
 fn show_items(l: &[(Vec<u8>, Vec<u8>, Vec<u8>)]) -> String {
     l.iter().map(|(s, e, h)| format!("{}:{}:{}", hex(s), hex(e), hex(h))).collect::<Vec<_>>().join(" ")
+}
+
+/// L-long: LONG untrusted lists (150..700 entries): a root with hundreds of disjoint children (some
+/// with children of their own), digests equal / different in chosen places, optionally scrambled,
+/// truncated or with duplicated entries — so that one diff records hundreds of ranges of each kind.
+pub fn llong(g: &mut Gen, r: &mut Rng, cases: usize) {
+    for case in 0..cases {
+        let mut r = r.fork(0x11000 + case as u64);
+        let kids = 150 + r.below(550) as u16;
+        let k2 = |x: u16| x.to_be_bytes().to_vec();
+        let mk = |r: &mut Rng, flip_every: u64, salt: u8| {
+            let mut l: Vec<(Vec<u8>, Vec<u8>, Vec<u8>)> = vec![];
+            l.push((k2(0), k2(kids * 4 + 3), vec![9, salt]));
+            for i in 0..kids {
+                let h = if flip_every > 0 && r.below(flip_every) == 0 { vec![2, salt] } else { vec![1] };
+                l.push((k2(i * 4), k2(i * 4 + 2), h));
+                if r.chance(1, 5) {
+                    l.push((k2(i * 4), k2(i * 4 + 1), vec![3, (i % 3) as u8]));
+                }
+            }
+            l
+        };
+        let la = mk(&mut r, 0, 0);
+        let fe = [0, 3, 40, 200][r.below(4) as usize];
+        let mut lb = mk(&mut r, fe, 1);
+        match r.below(5) {
+            0 => r.shuffle(&mut lb[1..]),
+            1 => {
+                let cut = lb.len() / 2;
+                lb.truncate(cut);
+            }
+            2 => {
+                let i = 1 + r.below(lb.len() as u64 - 1) as usize;
+                let it = lb[i].clone();
+                lb.insert(i, it);
+            }
+            _ => {}
+        }
+        g.op(format!("list 0 {}", show_items(&la)));
+        g.op(format!("list 1 {}", show_items(&lb)));
+        let a = g.op("ldiff 0 1".into());
+        let b = g.op("ldiff 1 0".into());
+        g.cases += 2;
+        g.shapes.insert(fnv(&a) ^ fnv(&b).rotate_left(7));
+        g.note("llong");
+        if case < 1 {
+            g.sample(format!("llong case {case}: {} / {} entries", la.len(), lb.len()));
+        }
+    }
 }
 
 pub fn lrand(g: &mut Gen, r: &mut Rng, cases: usize, maxlen: usize) {
